@@ -653,7 +653,7 @@ func (r *reference) restore(node int) string {
 		if r.clobbered[string(sd.Digest)] {
 			return "clobbered" // the file this digest points to holds other bytes: the copy does not verify
 		}
-		if r.digestPath[string(sd.Digest)] == path {
+		if r.digestPath[string(sd.Digest)] == path && len(st.bytes) > 0 {
 			// the second name resolves to the very file the content is read from: os.Create truncates it
 			r.clobbered[string(sd.Digest)] = true
 			return "clobbered"
